@@ -25,6 +25,11 @@ TRUSTED_BASE = [
     "CPython OrderedDict semantics (move_to_end, popitem(last=False), reversed views) — modelled, sampled by the correspondence",
     "threading.Lock gives mutual exclusion; an operation's effect happens while the lock is held (the lock wrapper records that order)",
 ]
+MANIFEST = {
+    "technique": "Lean 4 proof (induction over operation sequences; refinement to a recency-list specification) + differential correspondence incl. linearised multi-thread histories",
+    "text": "Theorems lru_inv, evicts_lru, get_after_set, value_is_last_stored, run_refines_spec, interleaving_safe hold for every operation sequence and every interleaving of atomic steps, with no bound; the model is tied to lru_cache.py by exhaustive small-sequence and random differential runs and by replaying lock-ordered histories of real threads.",
+    "note": "Trusted: Lean kernel (axioms propext/Classical.choice/Quot.sound only), the hand model of OrderedDict as an association list, the correspondence harness, threading.Lock mutual exclusion. Preemption inside a method body is below the model's atomic steps; real-thread soak runs sample it."
+}
 ASSUMPTIONS = [
     "Concurrency theorem interleaving_safe assumes each locked method body is one atomic step; preemption inside an unlocked method (__len__) is below the model",
     "keys/values are natural numbers in the model; the implementation is generic, hashing/equality of keys is Python's",
